@@ -238,6 +238,12 @@ def _bumps(ck, P, cfg):
     specs.append(("STATS_MSG_PROCESSED", f, d, "forward dispatch"))
     f = P.fn("silent_execution")
     d = [c for c in f.walk() if c.k == "CallExpr" and not c.callee and X.show(c.children[0]) == DISPATCH]
+    if not d:
+        # the dispatch (and its bump) may have been moved into a helper that only silent_execution calls
+        from ..rules_rollback import dispatch_points
+        via = [x for x in dispatch_points(P, f, DISPATCH) if x[2] is not None]
+        if len(via) == 1 and _takes(via[0][2], P, "STATS_MSG_SILENT"):
+            f, d = via[0][2], [via[0][1]]
     specs.append(("STATS_MSG_SILENT", f, d, "silent dispatch"))
     f = P.fn("checkpoint_take")
     specs.append(("STATS_CKPT", f, list(f.calls("model_allocator_checkpoint_take")), "checkpoint taken"))
